@@ -567,3 +567,39 @@ func (fc *FuncCtx) ResultObj(i int) types.Object {
 }
 
 func ptrStr(o types.Object) string { return fmt.Sprintf("%p", o) }
+
+// EqConstEdges returns the edges on which the expression identified by same(e) is known to equal
+// the integer constant k, whatever the syntactic shape of the test: `switch e { case k: }`,
+// `e == k` (true edge), `e != k` (false edge), either operand order.
+func (fc *FuncCtx) EqConstEdges(same func(e ast.Expr) bool, k int64) []Edge {
+	info := fc.Info()
+	var out []Edge
+	for _, v := range fc.G.V {
+		x, y, op, ok := condParts(v)
+		if !ok || y == nil || (op != token.EQL && op != token.NEQ) {
+			continue
+		}
+		var other ast.Expr
+		switch {
+		case same(x):
+			other = y
+		case same(y):
+			other = x
+		default:
+			continue
+		}
+		if c, isC := constInt(info, other); !isC || c != k {
+			continue
+		}
+		lab := LTrue
+		if op == token.NEQ {
+			lab = LFalse
+		}
+		for _, e := range v.Succs {
+			if e.Label == lab {
+				out = append(out, e)
+			}
+		}
+	}
+	return out
+}
